@@ -1,7 +1,9 @@
 /-
-  C03 — property theorems (and non-vacuity examples) ONLY.  Helper lemmas: `Lemmas.lean`, `ParseLemmas.lean`, `FuelLemmas.lean`.
+  C03 — property theorems (and non-vacuity examples) ONLY.  Helper lemmas: `Lemmas.lean`, `ParseLemmas.lean`, `FuelLemmas.lean`, `TreeLemmas.lean`, `NumLemmas.lean`.
 -/
 import YashModel.Arith.FuelLemmas
+import YashModel.Arith.TreeLemmas
+import YashModel.Arith.NumLemmas
 namespace YashModel.Arith
 open YashModel.Generated.ArithTables
 
@@ -9,40 +11,8 @@ open YashModel.Generated.ArithTables
     `binary_result` returns (never panics) and its value is the mathematically exact result when that is
     defined in C and representable, and an error otherwise — never a wrapped value. -/
 theorem binaryResult_exact (op : BinaryOperator) (l r : Int) (hl : InRange l) (hr : InRange r) :
-    (binaryResult op l r).Returns ∧ (binaryResult op l r).value? = Spec.arith op l r := by
-  cases op <;>
-    simp only [binaryResult, binaryChecked, Spec.arith, Spec.definedOp, Spec.exactOp, Spec.arithOf,
-      Spec.definedA, Spec.exactA]
-  case Assign => exact ok_some_exact r r True rfl trivial ((inRange_iff r).mp hr)
-  case LogicalOr => exact ok_some_exact _ _ True (boolInt_eq_truth _ _ (by simp)) trivial (truth_inRange _)
-  case LogicalAnd => exact ok_some_exact _ _ True (boolInt_eq_truth _ _ (by simp)) trivial (truth_inRange _)
-  case EqualTo => exact ok_some_exact _ _ True (boolInt_eq_truth _ _ (by simp)) trivial (truth_inRange _)
-  case NotEqualTo => exact ok_some_exact _ _ True (boolInt_eq_truth _ _ (by simp)) trivial (truth_inRange _)
-  case LessThan => exact ok_some_exact _ _ True (boolInt_eq_truth _ _ (by simp)) trivial (truth_inRange _)
-  case GreaterThan => exact ok_some_exact _ _ True (boolInt_eq_truth _ _ (by simp)) trivial (truth_inRange _)
-  case LessThanOrEqualTo => exact ok_some_exact _ _ True (boolInt_eq_truth _ _ (by simp)) trivial (truth_inRange _)
-  case GreaterThanOrEqualTo => exact ok_some_exact _ _ True (boolInt_eq_truth _ _ (by simp)) trivial (truth_inRange _)
-  case BitwiseOr => exact ok_some_exact _ _ True (bitOr_exact l r) trivial (fromRepr_inRange _ (Nat.or_lt_two_pow (toRepr_lt l) (toRepr_lt r)))
-  case BitwiseOrAssign => exact ok_some_exact _ _ True (bitOr_exact l r) trivial (fromRepr_inRange _ (Nat.or_lt_two_pow (toRepr_lt l) (toRepr_lt r)))
-  case BitwiseXor => exact ok_some_exact _ _ True (bitXor_exact l r) trivial (fromRepr_inRange _ (Nat.xor_lt_two_pow (toRepr_lt l) (toRepr_lt r)))
-  case BitwiseXorAssign => exact ok_some_exact _ _ True (bitXor_exact l r) trivial (fromRepr_inRange _ (Nat.xor_lt_two_pow (toRepr_lt l) (toRepr_lt r)))
-  case BitwiseAnd => exact ok_some_exact _ _ True (bitAnd_exact l r) trivial (fromRepr_inRange _ (Nat.and_lt_two_pow _ (toRepr_lt r)))
-  case BitwiseAndAssign => exact ok_some_exact _ _ True (bitAnd_exact l r) trivial (fromRepr_inRange _ (Nat.and_lt_two_pow _ (toRepr_lt r)))
-  case Add => exact ok_checked_exact _ True trivial
-  case AddAssign => exact ok_checked_exact _ True trivial
-  case Subtract => exact ok_checked_exact _ True trivial
-  case SubtractAssign => exact ok_checked_exact _ True trivial
-  case Multiply => exact ok_checked_exact _ True trivial
-  case MultiplyAssign => exact ok_checked_exact _ True trivial
-  case ShiftLeft => exact shl_case l r hl hr
-  case ShiftLeftAssign => exact shl_case l r hl hr
-  case ShiftRight => exact shr_case l r hl hr
-  case ShiftRightAssign => exact shr_case l r hl hr
-  case Divide => exact div_case l r hl hr
-  case DivideAssign => exact div_case l r hl hr
-  case Remainder => exact rem_case l r hl hr
-  case RemainderAssign => exact rem_case l r hl hr
-
+    (binaryResult op l r).Returns ∧ (binaryResult op l r).value? = Spec.arith op l r :=
+  binaryResult_spec op l r hl hr
 
 /-- the i64 boundary cases named by the property: `MIN / -1` and `MIN % -1` are errors, not wrapped values -/
 example : (binaryResult .Divide (-9223372036854775808) (-1)).value? = none ∧
@@ -329,6 +299,30 @@ theorem var_constant_agrees (x : Name) (c : List Char) (v : Int) (env : Env)
   unfold expandVariable
   simp only [hx, parseInteger_of_constant c v hterm hc, Res.ofOption]
 
+
+/-- ☆ both directions, for EVERY value text (not only constants): the variable expands to `v` exactly when
+    the text spells the signed C integer constant `v` (optional `+`/`-`, then `0x`/`0X` hex, leading-`0`
+    octal or decimal, fitting i64); every other text is the error `InvalidVariableValue`; unset is 0. -/
+theorem var_value_is_signed_constant (x : Name) (env : Env) :
+    expandVariable x env =
+      match env.get x with
+      | none => .ok 0
+      | some s =>
+        match Spec.signedConstValue s with
+        | some v => .ok v
+        | none => .error .invalidVariableValue := by
+  unfold expandVariable
+  cases env.get x with
+  | none => rfl
+  | some s =>
+    simp only [parseInteger_eq_spec]
+    cases Spec.signedConstValue s <;> rfl
+
+/-- ☆ `eval` on the vector the parser lays out for a tree is that tree evaluated node by node (the stored
+    operand lengths select exactly the operand encodings), for every tree and environment. -/
+theorem eval_rpn (e : Spec.Expr) (env : Env) :
+    WF (rpn e) ∧ eval (rpn e).length (rpn e) env = evalTree e env :=
+  ⟨rpn_wf e, eval_rpn_tree e _ env (Nat.le_refl _)⟩
 
 /-- the two witnesses that failed before the fix: `x=010` is 8, `x=0x10` is 16 -/
 example : expandVariable ['x'] [(['x'], "010".toList)] = .ok 8 ∧
